@@ -1,6 +1,8 @@
 package languages
 
 import (
+	"sort"
+
 	"github.com/grafana/codejen"
 	"github.com/grafana/cog/internal/ast"
 	"github.com/grafana/cog/internal/ast/compiler"
@@ -35,5 +37,7 @@ func (languages Languages) AsLanguageRefs() []string {
 	for language := range languages {
 		result = append(result, language)
 	}
+	// a Go map has no stable iteration order
+	sort.Strings(result)
 	return result
 }
